@@ -984,7 +984,8 @@ package badger
 //@ func (*DB).Load
 //@   props C11
 //@   light
-//@   loop 2 invariant[above-loaded] rangeindex >= 0 && rangeindex < len(list.Kv) ==> db.orc.nextTxnTs > list.Kv[rangeindex].Version
+//@   loop 2 invariant[above-loaded] rangeindex >= 0 && rangeindex < len(list.Kv) && list.Kv[rangeindex].Version != ^uint64(0) ==> db.orc.nextTxnTs > list.Kv[rangeindex].Version
+//@   loop 2 invariant[largest-version-not-loaded] rangeindex >= 0 && rangeindex < len(list.Kv) ==> list.Kv[rangeindex].Version != ^uint64(0)
 //@   assert[mark-below-next] before call Done : arg0 == db.orc.txnMark && arg1 == db.orc.nextTxnTs - 1
 
 // ---- call-order rules that recovery relies on (C08, C10): ordering obligations only ----
